@@ -5,6 +5,7 @@ import (
 	"encoding/base64"
 	"encoding/binary"
 	"encoding/json"
+	"flag"
 	"fmt"
 	"math/rand/v2"
 	"net"
@@ -17,9 +18,9 @@ import (
 
 	"github.com/cbeuw/Cloak/internal/client"
 	"github.com/cbeuw/Cloak/internal/common"
-	mux "github.com/cbeuw/Cloak/internal/multiplex"
 	"github.com/cbeuw/Cloak/internal/server"
 	"github.com/cbeuw/Cloak/internal/simsync"
+	"github.com/cbeuw/Cloak/internal/verifmain/ckclient"
 	"github.com/cbeuw/Cloak/verifsim/simnet"
 	utls "github.com/refraction-networking/utls"
 )
@@ -315,7 +316,8 @@ func runC20(c *Ctx, scAny any) {
 	simsync.Go("h:serve", func() { server.Serve(w.Front, w.Sta) })
 	upRecv := make([]int64, 1)
 	rightUp, wrongUp := 0, 0
-	startUpstream(w.Upstream[method], upRecv, func() { rightUp++ })
+	var snapshotKeys func()
+	startUpstream(w.Upstream[method], upRecv, func() { rightUp++; snapshotKeys() })
 	startUpstream(w.Upstream["other"], upRecv, func() { wrongUp++ })
 	simsync.Go("h:target", func() {
 		for {
@@ -326,29 +328,84 @@ func runC20(c *Ctx, scAny any) {
 			tc.Close()
 		}
 	})
-	d := &simnet.Dialer{Net: c.Net, LocalIP: "10.0.6.1", Tag: "front", KeepAlive: remote.KeepAlive}
-	sessions := 0
-	var made []*mux.Session
-	seshMaker := func() *mux.Session {
-		a := auth
-		randByte := make([]byte, 1)
-		common.RandRead(a.WorldState.Rand, randByte)
-		a.MockDomain = local.MockDomainList[int(randByte[0])%len(local.MockDomainList)]
-		quad := make([]byte, 4)
-		common.RandRead(a.WorldState.Rand, quad)
-		a.SessionId = binary.BigEndian.Uint32(quad)
-		sessions++
-		s := client.MakeSession(remote, a, d)
-		made = append(made, s)
-		return s
+	// ---- the real ck-client main() (cmd/ck-client, made importable by the
+	// instrumenter): flags, configuration, dialer and session maker are the
+	// shipped wiring; only net.Listen, the net.Dialer and log.Fatal are hooked
+	progExit := ""
+	seenKeys := map[[32]byte]bool{}
+	listening := false
+	awaitListener := func() {
+		for !listening && progExit == "" {
+			Sleep(time.Millisecond)
+		}
 	}
-	listener := c.Net.Listen(local.LocalAddr)
-	simsync.Go("h:route", func() { client.RouteTCP(listener, local.Timeout, remote.Singleplex, seshMaker) })
+	sessionIDs := map[uint32]bool{}
+	snapshotKeys = func() {
+		for _, u := range w.Sta.Panel.VerifUsers() {
+			for id, s := range u.Sessions {
+				seenKeys[s.GetSessionKey()] = true
+				sessionIDs[id] = true
+			}
+		}
+	}
+	simsync.HookDialer = func(nd *net.Dialer) simsync.Dialer {
+		return &simnet.Dialer{Net: c.Net, LocalIP: "10.0.6.1", Tag: "front", KeepAlive: nd.KeepAlive}
+	}
+	simsync.HookListen = func(network, addr string) (net.Listener, error) {
+		if network != "tcp" {
+			return nil, fmt.Errorf("unexpected network %q", network)
+		}
+		l := c.Net.Listen(addr)
+		listening = true
+		return l, nil
+	}
+	simsync.HookListenUDP = func(network string, la *net.UDPAddr) (net.PacketConn, error) {
+		return c.Net.NewPacketSock(la.String()), nil
+	}
+	// a third of the runs give the server address and the proxy method on the
+	// command line (-s, -proxy) while the configuration text names another host
+	// and another method: command-line arguments take precedence
+	progOpts := append([]C20Opt(nil), opts...)
+	var extraArgs []string
+	if sc.Seed%3 == 1 {
+		for i := range progOpts {
+			switch progOpts[i].Key {
+			case "RemoteHost":
+				extraArgs = append(extraArgs, "-s", progOpts[i].Val)
+				progOpts[i].Val = "198.51.100.9"
+			case "ProxyMethod":
+				extraArgs = append(extraArgs, "-proxy", progOpts[i].Val)
+				progOpts[i].Val = "other"
+			}
+		}
+	}
+	cfgArg := c20RenderSSV(progOpts)
+	if sc.Syntax == "json" {
+		dir := scratchDir()
+		defer os.RemoveAll(dir)
+		cfgArg = filepath.Join(dir, "ckclient.json")
+		os.WriteFile(cfgArg, []byte(c20RenderJSON(progOpts)), 0o600)
+	}
+	simsync.Go("h:ck-client", func() {
+		defer func() {
+			if r := recover(); r != nil {
+				fe, ok := r.(simsync.FatalExit)
+				if !ok {
+					panic(r)
+				}
+				progExit = fe.Msg
+			}
+		}()
+		os.Args = append([]string{"ck-client", "-c", cfgArg, "-verbosity", "panic"}, extraArgs...)
+		flag.CommandLine = flag.NewFlagSet("ck-client", flag.ContinueOnError)
+		ckclient.Main()
+	})
 	// proxy client application
 	pending := sc.Streams
 	for i := 0; i < sc.Streams; i++ {
 		simsync.Go("h:app", func() {
 			defer func() { pending-- }()
+			awaitListener()
 			ad := &simnet.Dialer{Net: c.Net, LocalIP: "10.0.7.2", Tag: "app"}
 			conn, err := ad.Dial("tcp", local.LocalAddr)
 			if err != nil {
@@ -377,6 +434,7 @@ func runC20(c *Ctx, scAny any) {
 	silentDone := false
 	simsync.Go("h:silent", func() {
 		defer func() { silentDone = true }()
+		awaitListener()
 		ad := &simnet.Dialer{Net: c.Net, LocalIP: "10.0.7.3", Tag: "app"}
 		conn, err := ad.Dial("tcp", local.LocalAddr)
 		if err != nil {
@@ -393,7 +451,7 @@ func runC20(c *Ctx, scAny any) {
 	}
 	if end != simsync.EndDone {
 		if end == simsync.EndQuiescent {
-			c.Fail("config", "not-working", "the configured client never relayed the proxy traffic (pending %d, silent connection closed: %v)\n%s", pending, silentDone, c.W.DumpTasks())
+			c.Fail("config", "not-working", "the configured client never relayed the proxy traffic (pending %d, silent connection closed: %v, ck-client exit: %q)\n%s", pending, silentDone, progExit, c.W.DumpTasks())
 		}
 		return
 	}
@@ -415,6 +473,8 @@ func runC20(c *Ctx, scAny any) {
 			return
 		}
 	} else {
+		snapshotKeys()
+		sessions := len(sessionIDs)
 		if sessions != 1 || len(front) != nc {
 			c.Fail("config", "numconn", "NumConn=%d: %d sessions with %d transport connections in total were made for %d proxied connections (want one session of %d)", nc, sessions, len(front), sc.Streams, nc)
 			return
@@ -539,11 +599,11 @@ func runC20(c *Ctx, scAny any) {
 			}
 		}
 	}
-	if !cdn && len(made) > 0 {
+	if !cdn && len(seenKeys) > 0 {
 		// frames on the wire decode under (that session's key, the configured method)
 		ok := false
-		for _, s := range made {
-			codec, _ := NewRefCodec(em, s.GetSessionKey())
+		for k := range seenKeys {
+			codec, _ := NewRefCodec(em, k)
 			for _, l := range front {
 				recs, _ := parseRecords(l.Dir[0].TapBuf)
 				if len(recs) > 1 {
